@@ -15,8 +15,9 @@ import (
 
 // Bar represents a progress bar.
 type Bar struct {
-	index        int // used by heap
-	priority     int // used by heap
+	index        int  // used by heap
+	priority     int  // used by heap
+	popping      bool // used by heap: priority is the pop priority and must stay
 	frameCh      chan *renderFrame
 	operateState chan func(*bState)
 	container    *Progress
